@@ -19,7 +19,7 @@ def write_if_changed(path, txt):
 import re
 def cexpr_to_coq(e, var="n"):
     """Tiny translator for integer constant expressions over sizeof(IntTypeT), literals, + - * >> << and parentheses."""
-    toks = re.findall(r"sizeof\s*\(\s*IntTypeT\s*\)|\d+|>>|<<|[-+*()]", e)
+    toks = re.findall(r"sizeof\s*\(\s*\w+\s*\)|\d+|>>|<<|[-+*()]", e)
     if "".join(toks).replace(" ", "") != re.sub(r"\s+", "", e):
         raise ValueError("unsupported expression: " + e)
     pos = [0]
@@ -68,7 +68,7 @@ def source_constants():
     grab("metadata/metadata_decoder.cc", r"kMaxSubmetadataLevel\s*=\s*(\d+)\s*;", "kMaxSubmetadataLevel_decoder")
     grab("metadata/metadata_encoder.cc", r"kMaxSubmetadataLevel\s*=\s*(\d+)\s*;", "kMaxSubmetadataLevel_encoder")
     txt = open(os.path.join(REPO, "src", "draco", "core/varint_decoding.h")).read()
-    m = re.search(r"constexpr\s+IntTypeT\s+max_depth\s*=\s*([^;]+);", txt)
+    m = re.search(r"(?:constexpr|const)\s+[\w:<> ]+?\s+max_depth\s*=\s*([^;]+);", txt)
     try:
         out.append("Definition varint_max_depth_of_sizeof (n : Z) : Z := %s." % cexpr_to_coq(m.group(1).strip()))
     except Exception as e:
